@@ -407,13 +407,21 @@ class PendingFor(_PendingLoop[For]):
     def get_result(self) -> list[expr]:
         # if no break/continue/return used
         # use the simplest list comprehension
+        # The loop target is an ordinary assignment target: iterate over a
+        # temporary and store it through the namespace at the top of the body,
+        # so it stays bound after the loop and obeys global/nonlocal/class rules.
+        for_target_tmp = ol_name(OL_FOR_TARGET)
+        self.converted_body[0:0] = PendingAssign(
+            self.node, self.nsp, self.nsp_global  # type: ignore
+        ).assign_auto(self.node.target, Name(id=for_target_tmp, ctx=Load()))
+
         if self.interrupt_cnt == 0 and len(self.node.orelse) == 0:
             return [
                 ListComp(
                     elt=self.nsp_global.expr_wraper(self.converted_body),
                     generators=[
                         comprehension(
-                            target=self.node.target,
+                            target=Name(id=for_target_tmp, ctx=Store()),
                             iter=expr_transf(self.nsp, self.node.iter),
                             ifs=[],
                             is_async=0,
@@ -484,7 +492,7 @@ class PendingFor(_PendingLoop[For]):
             elt=self.nsp_global.expr_wraper(self.converted_body),
             generators=[
                 comprehension(
-                    target=self.node.target,
+                    target=Name(id=for_target_tmp, ctx=Store()),
                     iter=for_loop_iter,
                     ifs=[],
                     is_async=0,
